@@ -135,6 +135,7 @@ def run(case, ctx):
                   if v is not None)
     out.nontrivial = desc['n'] >= 1 and nonnull >= 1 and nconstraints >= 3
 
+    ok0, text0 = quiet(cons.to_json)
     if case['via'] == 'file':
         ok, text = quiet(cons.to_json)
         if not ok:
@@ -185,6 +186,17 @@ def run(case, ctx):
         elif got is not None and len(got) != 0 and not failed:
             out.violate('detect-no-failing-records', 'detected-frame',
                         'detected() has %d rows' % len(got))
+    # using the discovered constraints in memory leaves them as discovered:
+    # they can still be written to a .tdda file, with the same text
+    ok1, text1 = quiet(cons.to_json)
+    if ok0 and not ok1:
+        out.violate('serialisation-never-raises', 'after-use:' + text1.bucket(),
+                    'to_json() after the constraints were used in memory: '
+                    + text1.detail())
+    elif ok0 and ok1 and text0 != text1:
+        out.violate('constraints-unchanged-by-use', 'text',
+                    'to_json() before use %r..., after %r...'
+                    % (text0[:200], text1[:200]))
     return out
 
 
